@@ -205,7 +205,16 @@ def rule_fold(ctx):
             c3 = 'mode=%s, squash_time=%r: time coordinate is the untouched sample index' % (mode, squash)
             ar = [t for t in subterms(rows) if t[0] == 'call' and t[1] == 'numpy.arange']
             arith = [t for t in subterms(rows) if t[0] == 'bin']
-            if ar and not arith:
+            semantic = None
+            if arith:
+                # arithmetic inside the construction (e.g. a repeat count nimfs * nimfs2): decide by evaluating the
+                # construction on two tiny [samples x imfs x imfs2] shapes - it must list every element's sample index
+                from ..smallarr import flat_index_of_axis0, Undecided as _U
+                try:
+                    semantic = flat_index_of_axis0(rows, 3)
+                except _U:
+                    semantic = None
+            if ar and (not arith or semantic):
                 ctx.passed('C11.R1', fi, c3)
             elif not ar:
                 ctx.undecided('C11.R1', fi, c3, 'time coordinate %s' % show(rows)[:80])
